@@ -90,7 +90,7 @@ def run(tier="quick", seed=1, replay=None):
                 vals = [c for c in vals if (h(c) + seed) % 3 == 0]
                 valsx = [c for c in valsx if (h(c) + seed) % 10 == 0]
             cases = [dress(c, "w", i) for i, c in enumerate(vals + sims)] + [dress(c, "x", i) for i, c in enumerate(valsx)]
-            cov["bounds"] = (f"exhaustive: every vector of <= {3 if quick else 4} effective weights from {0(-Inf),1,2,3,8} x top-k {-1,0,1,2,5} x top-p "
+            cov["bounds"] = ("exhaustive: every vector of <= " + str(3 if quick else 4) + " effective weights from {0(-Inf),1,2,3,8} x top-k {-1,0,1,2,5} x top-p "
                              "{-0.5,0,0.3,0.5,0.9,1,1.5} x min-p {-0.1,0,0.1,0.5,1,2} x temperature {<0, 0, >0}"
                              + ("; a 1-in-3 sample of them is replayed in the quick tier" if quick else "; all replayed")
                              + "; simulated: vectors of <= 8 weights up to 200; magnitude classes -Inf, -3e38, 0, 3e38, +Inf; "
